@@ -28,6 +28,8 @@ func init() {
 const fl = "tools/flow."
 
 func checkC18(c *Ctx) {
+	c18MarkedDecls(c)
+	c18RetagOnEveryInit(c)
 	// ownership of controller and task state (only the controller goroutine's functions, plus Fill for update)
 	c.checkFieldWriters("ownership.field-writers", "tools/flow", "Task", map[string][]string{
 		"state": {"(*Controller).markReady", "(*Controller).runLoop"}, "err": {"(*Controller).getTask", "(*Controller).runLoop"},
@@ -1148,4 +1150,121 @@ func c18OperandContexts(c *Ctx) {
 		c.check("deps.operand-contexts-visit-everything", f.Name+"/"+s.name, pos, found && ok,
 			"the visitor must force full traversal (c.all = true … restored) around an operand that never becomes an arc of the visited node ("+s.name+"): in dynamic mode the elements of a list or struct literal used there are otherwise never visited and the references inside create no dependency")
 	}
+}
+
+
+// c18MarkedDecls: in dynamic mode the dependency visitor follows an arc only
+// if one of its conjuncts was marked by marked.markExpr as coming from the
+// task's own expression. markExpr walks the declarations of a struct literal;
+// a declaration kind whose value it does not mark makes every reference below
+// that value invisible (no dependency edge). Every declaration case must mark
+// the declaration's Value, as the sibling walker visitor.markDecl visits it.
+func c18MarkedDecls(c *Ctx) {
+	const rule = "deps.marked-declaration-values"
+	f := c.fn("internal/core/dep", "marked.markExpr")
+	info := f.Info()
+	declT := c.lookupType(adtP + ".Decl").Type()
+	n := 0
+	ast.Inspect(f.Body, func(x ast.Node) bool {
+		ts, ok := x.(*ast.TypeSwitchStmt)
+		if !ok {
+			return true
+		}
+		var op ast.Expr
+		switch a := ts.Assign.(type) {
+		case *ast.AssignStmt:
+			op = a.Rhs[0].(*ast.TypeAssertExpr).X
+		case *ast.ExprStmt:
+			op = a.X.(*ast.TypeAssertExpr).X
+		}
+		if t := info.TypeOf(op); t == nil || !types.Identical(t, declT) {
+			return true
+		}
+		for _, cl := range ts.Body.List {
+			cc := cl.(*ast.CaseClause)
+			if len(cc.List) != 1 {
+				continue
+			}
+			pt, ok := info.TypeOf(cc.List[0]).(*types.Pointer)
+			if !ok {
+				continue
+			}
+			named, ok := pt.Elem().(*types.Named)
+			if !ok {
+				continue
+			}
+			st, ok := named.Underlying().(*types.Struct)
+			if !ok {
+				continue
+			}
+			hasValue := false
+			for i := 0; i < st.NumFields(); i++ {
+				if st.Field(i).Name() == "Value" {
+					hasValue = true
+				}
+			}
+			if !hasValue {
+				continue
+			}
+			n++
+			bound := info.Implicits[cc]
+			marks := false
+			for _, s := range cc.Body {
+				ast.Inspect(s, func(y ast.Node) bool {
+					call, ok := y.(*ast.CallExpr)
+					if !ok || len(call.Args) != 1 {
+						return true
+					}
+					nm := calleeName(info, call)
+					if sel, ok := ast.Unparen(call.Args[0]).(*ast.SelectorExpr); ok && sel.Sel.Name == "Value" && identObj(info, sel.X) == bound && bound != nil {
+						if strings.HasSuffix(nm, "marked.markExpr") {
+							marks = true
+						}
+					}
+					// the whole declaration handed to a sibling marker (markComprehension walks clauses and value)
+					if bound != nil && identObj(info, call.Args[0]) == bound && strings.Contains(nm, "marked.mark") {
+						marks = true
+					}
+					return true
+				})
+			}
+			c.check(rule, f.Name+"/case *"+named.Obj().Name(), cc.Pos(), marks,
+				"the declaration's Value must be passed to markExpr: the dynamic dependency visitor follows an arc only when one of its conjuncts is marked, so an unmarked value hides every task reference below it (the sibling walker visitor.markDecl visits the Value of every declaration kind)")
+		}
+		return true
+	})
+	c.expect(rule, 5)
+}
+
+// c18RetagOnEveryInit: Controller.nodes maps the vertices of the current
+// configuration value to the task they belong to; findImpliedTask resolves a
+// reference into a task's fields through it. initTasks rebuilds the map from
+// scratch after every task completion, so getTask must re-associate the
+// children of every task it sees with that task, whatever the task's state —
+// a Running task whose fields are skipped loses every dependency edge first
+// discovered in that round.
+func c18RetagOnEveryInit(c *Ctx) {
+	const rule = "deps.children-tagged-for-every-task"
+	f := c.fn("tools/flow", "(*Controller).getTask")
+	cf := newCaseFn(c, f)
+	g := cf.g
+	tag := g.callNodes("tools/flow.(*Controller).tagChildren")
+	if len(tag) == 0 {
+		c.broken("anchor: getTask no longer calls tagChildren")
+	}
+	// no condition on the task's state may guard the call
+	bad := ""
+	for id := range tag {
+		for _, is := range enclosingIfs(f.Body, g.Nodes[id].N) {
+			if strings.Contains(exprString(is.Cond), ".state") {
+				bad = exprString(is.Cond)
+			}
+		}
+	}
+	var pos token.Pos
+	for id := range tag {
+		pos = g.pos(id)
+	}
+	c.check(rule, f.Name, pos, bad == "",
+		"getTask must tag the children of every task it (re)visits, independent of the task's state: initTasks rebuilds Controller.nodes from scratch after each completion, and a reference to a field of a task whose children were skipped resolves to no task (condition found: "+bad+")")
 }
